@@ -576,11 +576,21 @@ def handleResendRequest (s : Sess) (m : InMsg) : Sess × SState :=
 inductive LogonErr | rej (r : Rej) | other
   deriving Repr, Inhabited
 
-/-- the acceptor's part of handleLogon: adopt the peer's HeartBtInt unless overridden, reply with a Logon -/
-def logonReply (s : Sess) (m : InMsg) (flag : Bool) : Sess :=
+/-- the acceptor's part of handleLogon as it was before `fix:` cbdc133: every Logon is answered — also the peer's answer
+    to the reset Logon the acceptor sent itself (ResetSeqTime), with a second reset Logon numbered 1 -/
+def logonReplyOrig (s : Sess) (m : InMsg) (flag : Bool) : Sess :=
   if !s.cfg.initiator then
     let s := if !s.cfg.hbOverride then (match getInt m 108 with | .val h => s.setHb h | _ => s) else s
     sendLogonRe s flag m
+  else s
+
+/-- the acceptor's part of handleLogon: adopt the peer's HeartBtInt unless overridden, reply with a Logon — unless, in an
+    established session, the Logon carries ResetSeqNumFlag=Y while `sentReset` is up: that is the peer's answer to the
+    reset Logon we sent ourselves, not a logon request (after `fix:` cbdc133) -/
+def logonReply (s : Sess) (m : InMsg) (flag : Bool) : Sess :=
+  if !s.cfg.initiator then
+    let s := if !s.cfg.hbOverride then (match getInt m 108 with | .val h => s.setHb h | _ => s) else s
+    if flag && s.sentReset && s.st.loggedOn then s else sendLogonRe s flag m
   else s
 
 /-- the end of handleLogon: arm the peer timer, notify, gap check, consume the Logon's number -/
